@@ -48,7 +48,7 @@ def _dateadd_sql(self: SparkGenerator, expression: exp.TsOrDsAdd | exp.Timestamp
         # in other dialects
         return_type = expression.return_type
         if not return_type.is_type(exp.DType.TIMESTAMP, exp.DType.DATETIME):
-            this = f"CAST({this} AS {return_type})"
+            this = f"CAST({this} AS {self.sql(return_type)})"
 
     return this
 
